@@ -325,4 +325,52 @@ def steps(rep):
         for i, (s, v) in enumerate(outs):
             r = pr.prove(list(s.pc) + [ex.truth(v), mean_self], mean_br)
             rep.add(f'C19.TupleFixedTypeHint._is_subhint_branch.post.sound.arity{n}x{m}.path{i}', r.status, time=r.time, backend=r.backend, where='True => same length and componentwise inclusion (children by the induction hypothesis)', bounded=True)
+    # ---- TypeHint._is_subhint_branch (the generic branch of every subscripted wrapper: list[T], Mapping[K, V], set[T], ...), per arity.
+    #      Meaning of a subscripted hint with origin O and children c_0..c_{n-1}: isinstance(x, O) and, for every position j, every component of
+    #      x at parameter position j satisfies c_j (COMP_j: an uninterpreted relation - items, keys, values, ...; positions of a subclass
+    #      origin correspond to those of its base: assumption, cf. KF-C01/C02-generic-parameter-order).  Covariant reading, as is_subhint documents.
+    fobj, node, _ = funcmode.load('beartype/door/_cls/doorsuper.py', 'TypeHint._is_subhint_branch')
+    from beartype.roar import BeartypeDoorIsSubhintException
+    uni.const(BeartypeDoorIsSubhintException)
+    COMP = [z3.Function(f'component_at_{j}', M.Obj, M.Obj, z3.BoolSort()) for j in range(3)]
+    yy = z3.Const('comp_y', M.Obj)
+    same_wrapper = z3.Bool('branch_is_same_wrapper_class')
+    for n, m in ((1, 1), (2, 2), (3, 3), (0, 0), (1, 2), (2, 1)):
+        SC = [z3.Const(f'gen_self_child{i}', M.Obj) for i in range(n)]; BC = [z3.Const(f'gen_branch_child{i}', M.Obj) for i in range(m)]
+        def m_isinst(ex_, s, f, a, kw, w):
+            if isinstance(a[0], VObj) and a[0].t.eq(BR) and not isinstance(a[1], VPy): return [(s, VBool(same_wrapper))]      # isinstance(branch, type(self))
+            return Exec.b_isinstance(ex_, s, a, kw, w)
+        def m_type(ex_, s, f, a, kw, w): return [(s, VObj(z3.Const('type_of_self', M.Obj)))]
+        ex = Exec(uni, dict(smod.__dict__), call_model={isinstance: m_isinst, type: m_type, '.is_subhint': m_le}, name=f'generic{n}x{m}'); ex.fields_mode = True; ex.method_names = {'is_subhint'}
+        orig_getattr = ex.getattr_
+        def ga(s, b, name, _o=orig_getattr):
+            if isinstance(b, VObj) and name == '_args_wrapped_tuple':
+                if b.t.eq(SELF): return [(s, VTup(tuple(VObj(c) for c in SC)))]
+                if b.t.eq(BR): return [(s, VTup(tuple(VObj(c) for c in BC)))]
+            return _o(s, b, name)
+        ex.getattr_ = ga
+        OS_, OB_ = z3.Select(F('_origin'), SELF), z3.Select(F('_origin'), BR)
+        pre = (M.inst(OS_, uni.const(type)), M.inst(OB_, uni.const(type)))
+        try: outs = ex.run_function(node, St((), pre), (VObj(SELF), VObj(BR)), {}, fobj)
+        except symx.Unsupported as e:
+            rep.error(f'C19.TypeHint._is_subhint_branch[{n}x{m}]: unsupported: {e}'); continue
+        ign_br = M.truthy(z3.Select(F('_is_args_ignorable'), BR))
+        mean_self = z3.And(M.inst(X, OS_), *[z3.ForAll([yy], z3.Implies(COMP[j](X, yy), MEAN(SC[j], yy))) for j in range(n)])
+        mean_br_sub = z3.And(M.inst(X, OB_), *[z3.ForAll([yy], z3.Implies(COMP[j](X, yy), MEAN(BC[j], yy))) for j in range(m)])
+        # what the branch means: its own subscripted meaning when it is the same kind of wrapper; when it reports args-ignorable, the proved contract of
+        # _is_args_ignorable applies (every instance of its origin satisfies it)
+        br_ax = [z3.Implies(same_wrapper, MEAN(BR, X) == mean_br_sub), z3.Implies(ign_br, z3.Implies(M.inst(X, OB_), MEAN(BR, X)))]
+        pr = discharge.Prover(uni.axioms() + cls_ax + [IH])
+        for ob in ex.obls:
+            r = pr.prove(list(ob.pc), ob.goal); rep.add(f'C19.TypeHint._is_subhint_branch[{n}x{m}].{ob.kind}#{ob.name.rsplit(".", 1)[-1]}', r.status, time=r.time, backend=r.backend, where=ob.where)
+        k_ret = 0
+        for i, (s, v) in enumerate(outs):
+            k_ret += 1
+            r = pr.prove(list(s.pc) + br_ax + [ex.truth(v), mean_self], MEAN(BR, X))
+            rep.add(f'C19.TypeHint._is_subhint_branch.post.sound.arity{n}x{m}.path{i}', r.status, time=r.time, backend=r.backend, reason=r.reason, bounded=True,
+                    where='True => the origin is a subclass and either the branch is args-ignorable or it is the same kind of wrapper with pairwise included children: every object satisfying self satisfies the branch')
+        for i, (s, v) in enumerate(ex.raised):
+            cls_ = getattr(v, 'cls', None)
+            rep.add(f'C19.TypeHint._is_subhint_branch.post.raises_only_door_exception.arity{n}x{m}.path{i}', 'proved' if cls_ is BeartypeDoorIsSubhintException else 'refuted', backend='structural', where=f'raises {getattr(cls_, "__name__", v)} (differing numbers of children)')
+        if not k_ret and n == m: rep.error(f'C19.TypeHint._is_subhint_branch[{n}x{m}]: no returning path')
 
